@@ -326,6 +326,7 @@ C06_NoStuckQ == Quiet => C06_NoStuck(api, now, MaxC)
 C07_NeverEarly == C07_NotEarly(api)
 C07_NeverEarlyStep == [][C07_NotEarlyStep(api, api', now')]_vars
 C07_IndepStarts == Quiet => C07_IndependentStarts(api, now)
+C07_DueStartsQ == Quiet => C07_DueStarts(api, now, MaxC)
 C07_RefusedWhenDue == [][C07_RefusedOnlyWhenDueStep(api, api', now')]_vars
 C11_StartStable == [][C11_StartTimeStable(api, api')]_vars
 \* supporting invariants (localise a violation; not property verdicts)
